@@ -785,3 +785,36 @@ pub fn c16_sets<S: Src>(_s: &mut S) {
     for f in failures.iter().take(10) { eprintln!("C16-SETS {}", f); }
     assert!(failures.is_empty(), "{} set-collection scenarios violate the property; first: {}", failures.len(), failures[0]);
 }
+
+
+// ---------------------------------------------------------------- C19: the percentage helper, failed attempts (API-level confirmation)
+/// add_inputs_from_and_change_with_collateral_return fails in its first stage (not enough UTxOs) or in its last one
+/// (collateral too small for the percentage): the builder must afterwards hold neither a collateral return nor a total
+pub fn c19_helper_failed<S: Src>(_s: &mut S) {
+    let mut failures: Vec<String> = Vec::new();
+    for variant in 0..3u8 {
+        let mut tb = TransactionBuilder::new(&config(true));
+        let want: u64 = if variant == 0 { 5_000_000_000 } else { 2_000_000 };
+        tb.add_output(&TransactionOutput::new(&addr(0, 50), &Value::new(&bn(want)))).unwrap();
+        let col_coin: u64 = if variant == 2 { 1_000 } else { 5_000_000 };
+        let mut cb = TxInputsBuilder::new();
+        cb.add_regular_input(&addr(1, 3), &TransactionInput::new(&TransactionHash::from([8u8; 32]), 0), &Value::new(&bn(col_coin))).unwrap();
+        tb.set_collateral(&cb);
+        let mut utxos = TransactionUnspentOutputs::new();
+        utxos.add(&TransactionUnspentOutput::new(&TransactionInput::new(&TransactionHash::from([9u8; 32]), 0), &TransactionOutput::new(&addr(1, 4), &Value::new(&bn(100_000_000)))));
+        if variant == 1 {
+            // balanced first: the helper refuses because change was already calculated
+            if tb.add_inputs_from_and_change(&utxos, CoinSelectionStrategyCIP2::LargestFirstMultiAsset, &ChangeConfig::new(&addr(1, 60))).is_err() { continue; }
+        }
+        let r = tb.add_inputs_from_and_change_with_collateral_return(&utxos, CoinSelectionStrategyCIP2::LargestFirstMultiAsset, &ChangeConfig::new(&addr(1, 60)), &bn(150));
+        if r.is_ok() { continue; }
+        if tb.get_fee_if_set().is_none() { tb.set_fee(&bn(300_000)); }
+        match tb.build() {
+            Ok(body) => if body.total_collateral().is_some() || body.collateral_return().is_some() {
+                failures.push(format!("failed percentage-helper attempt (variant {}) leaves total collateral {:?} / a collateral return set", variant, body.total_collateral().map(u64::from)));
+            },
+            Err(_) => (),
+        }
+    }
+    assert!(failures.is_empty(), "{} collateral scenarios violate the property; first: {}", failures.len(), failures[0]);
+}
